@@ -59,6 +59,15 @@ Theorem C19_import_reading_complete : forall class_of first_field nodes rels lin
     In (oriented first_field cls a lf b) (map key3 links).
 Proof. exact import_links_complete. Qed.
 Print Assumptions C19_import_reading_complete.
+Theorem C19_import_reading_exact : forall class_of first_field nodes rels links,
+  import_links class_of first_field nodes rels = Some links ->
+  forall k, In k (map key3 links) <->
+    exists i j a lf rf b ta tb cls, i <> j /\ i < List.length rels /\ j < List.length rels /\
+      nth i rels ("", "", "")%string = (a, lf, b) /\ nth j rels ("", "", "")%string = (b, rf, a) /\
+      type_of_node nodes a = Some ta /\ type_of_node nodes b = Some tb /\ class_of lf rf ta tb = Some cls /\
+      k = oriented first_field cls a lf b.
+Proof. exact import_links_exact. Qed.
+Print Assumptions C19_import_reading_exact.
 Theorem C19_import_reading_total : forall class_of first_field nodes rels,
   (forall a lf rf b, In (a, lf, rf, b) (rows rels) -> type_of_node nodes a <> None /\ type_of_node nodes b <> None) ->
   import_links class_of first_field nodes rels <> None.
